@@ -3,6 +3,7 @@ CONSTANTS
   Denoms = {"eth"}
   Mods <- Mods0
   AddrMode = "simple"
+  Stock = FALSE
   MaxTx = 3
   Fuel = 2
   Level = 1
